@@ -315,6 +315,23 @@ pub fn shape_exact(t: i32, r: &mut Rng, c: &Cfg, parts: usize, len: usize) -> Sh
     }
 }
 
+/// The same polygon / multipatch with one or two vertex-less rings / patches inserted at
+/// positions other than the first (rebuilt through `with_rings` / `with_parts`).
+pub fn with_empty_parts(s: &Shape, r: &mut Rng) -> Shape {
+    use crate::dump::Dump;
+    let d = s.d();
+    if !(is_polygon(d.ty) || d.ty == 31) {
+        return crate::shapes::clone_shape(s);
+    }
+    let mut input: Vec<(i32, Vec<[u64; 4]>)> = d.parts.iter().enumerate().map(|(i, p)| (d.kinds.get(i).copied().unwrap_or(0), p.clone())).collect();
+    for _ in 0..1 + r.below(2) {
+        let pos = r.usize_in(1, input.len());
+        let kind = if d.ty == 31 { r.below(6) as i32 } else { r.below(2) as i32 };
+        input.insert(pos, (kind, vec![]));
+    }
+    crate::shapes::build_from_parts(d.ty, &input, false)
+}
+
 /// A sequence of 1..=max_n shapes of type `t` with deliberately different sizes (so record
 /// offsets are not an arithmetic progression); every 7th sequence uses equal sizes instead.
 pub fn sequence(t: i32, r: &mut Rng, c: &Cfg, min_n: usize, max_n: usize, variant: u64) -> Vec<Shape> {
@@ -370,6 +387,11 @@ pub fn sequence(t: i32, r: &mut Rng, c: &Cfg, min_n: usize, max_n: usize, varian
                 crate::shapes::build_from_parts(t, &input, false)
             })
             .collect();
+    }
+    if variant % 19 == 4 && (is_polygon(t) || t == 31) {
+        // rings / patches WITHOUT any vertex, anywhere but first (the constructors accept them
+        // there; the first ring of a shape feeds its box)
+        return (0..n).map(|_| with_empty_parts(&shape(t, r, c), r)).collect();
     }
     if variant % 7 == 3 {
         let parts = r.usize_in(1, c.max_parts.max(1));
